@@ -1,5 +1,5 @@
 """Private, hook-enabled toolchain built from /repo's *working tree*, cached by content hash."""
-import fcntl, hashlib, os, shutil, subprocess, sys, time
+import json, fcntl, hashlib, os, shutil, subprocess, sys, time
 
 VERIF = os.path.dirname(os.path.dirname(os.path.abspath(__file__)))
 REPO = os.environ.get("VERIF_REPO", "/repo")
@@ -56,6 +56,10 @@ class TC:
         self.N = "-Nfile=" + self.conf
         self.hash = os.path.basename(top)[3:]
         self.bin = os.path.join(top, "bin")  # module harness binaries
+        # partial: the compiler was built but FAULTED while compiling the repository's own library sources (dict: step, tail);
+        # gc_note: the library build only went through with collection disabled (dict: step, tail)
+        self.partial = _load_json(os.path.join(top, "PARTIAL"))
+        self.gc_note = _load_json(os.path.join(top, "GCNOTE"))
 
     def libflags(self, lib):
         R = self.R
@@ -86,12 +90,29 @@ class TC:
                          "%s/lib/aldor/src/aldor.jar" % R])
 
 
-def _run(cmd, cwd, log):
+def _load_json(path):
+    try:
+        with open(path) as fh:
+            return json.load(fh)
+    except (OSError, ValueError):
+        return None
+
+
+def _run(cmd, cwd, log, env=None):
     with open(log, "ab") as lf:
-        lf.write(("\n$ %s (cwd=%s)\n" % (cmd, cwd)).encode())
+        lf.write(("\n$ %s (cwd=%s)%s\n" % (cmd, cwd, " [ALDOR_VERIF_GC=never]" if env else "")).encode())
         lf.flush()
-        r = subprocess.run(cmd, cwd=cwd, shell=True, stdout=lf, stderr=subprocess.STDOUT)
+        r = subprocess.run(cmd, cwd=cwd, shell=True, stdout=lf, stderr=subprocess.STDOUT, env=env)
     return r.returncode
+
+
+FAULT_MARKS = ("Program fault", "Compiler bug", "VERIF-FAULT-SITE", "Storage allocation error")
+
+
+def _compiler_fault_tail(log):
+    """the last 40 lines of the build log if they show the freshly built compiler faulting, else None"""
+    tail = subprocess.run(["tail", "-40", log], capture_output=True, text=True, errors="replace").stdout
+    return tail if any(m in tail for m in FAULT_MARKS) else None
 
 
 def _gc_cache(keep_name):
@@ -113,13 +134,13 @@ def ensure(verbose=True):
     name = "tc-" + h
     top = os.path.join(CACHE, name)
     ok = os.path.join(top, "OK")
-    if os.path.exists(ok):
+    if os.path.exists(ok) or os.path.exists(os.path.join(top, "PARTIAL")):
         os.utime(top)
         return TC(top)
     lock = open(os.path.join(CACHE, "build.lock"), "w")
     fcntl.flock(lock, fcntl.LOCK_EX)
     try:
-        if os.path.exists(ok):
+        if os.path.exists(ok) or os.path.exists(os.path.join(top, "PARTIAL")):
             return TC(top)
         if verbose:
             print("[build] building toolchain %s from %s working tree (about 80 s)" % (name, REPO), flush=True)
@@ -141,8 +162,24 @@ def ensure(verbose=True):
             ("make -j16 -C lib/aldor", R),
             ("make -j16 -C lib/axllib", R),
         ]
+        gc_env = None
         for cmd, cwd in steps:
-            rc = _run(cmd, cwd, log)
+            rc = _run(cmd, cwd, log, gc_env)
+            if rc != 0 and gc_env is None and os.path.exists(os.path.join(R, "aldor", "src", "aldor")):
+                ftail = _compiler_fault_tail(log)
+                if ftail is not None:
+                    # the compiler built from this tree faults on the repository's own (valid) library sources. Is it the collector?
+                    gc_env = dict(os.environ, ALDOR_VERIF_GC="never")
+                    rc = _run(cmd, cwd, log, gc_env)
+                    if rc == 0:
+                        with open(os.path.join(top, "GCNOTE"), "w") as fh:
+                            json.dump({"step": cmd, "tail": ftail[-3000:]}, fh)
+                    else:
+                        with open(os.path.join(top, "PARTIAL"), "w") as fh:
+                            json.dump({"step": cmd, "tail": ftail[-3000:]}, fh)
+                        if verbose:
+                            print("[build] the compiler built from this tree faults in step '%s' (also with collection disabled): partial toolchain" % cmd, flush=True)
+                        return TC(top)
             if rc != 0:
                 tail = subprocess.run(["tail", "-30", log], capture_output=True, text=True).stdout
                 print("INFRA-ERROR toolchain build step failed: %s\n%s" % (cmd, tail))
